@@ -138,6 +138,7 @@ def gen_case(seed, tier):
         "envfault": rng.choice(["none", "none", "drop", "dup", "reorder", "flip_unsigned", "flip_signed", "jump_clock", "last_unsigned"]),
         "envpos": rng.randrange(8),
         "flipbit": rng.randrange(100000),
+        "ring_form": rng.choice(["key", "key", "dict", "dict_origin", "dict_origin", "callable"]),
     }
     return case
 
@@ -195,11 +196,27 @@ def _verifier_now(case, time_signed):
     return time_signed + 10 * (f + 1) + 1000, False
 
 
+_RING_FORM = ["key"]
+
+
 def _real_verify(wire, key_or_ring, request_mac=b"", multi=False, ctx=None):
-    """Returns ('ok', message) | ('exc', class name, exception)."""
+    """Returns ('ok', message) | ('exc', class name, exception).
+    The key is handed over in the form the case names: the Key itself, a {name: key} dict, such a dict
+    while the message is parsed relative to an origin the key name lies under (what the zone
+    transfer code does), or a callable."""
     dns = _d
+    kw = {}
+    form = _RING_FORM[0]
+    if isinstance(key_or_ring, dns.tsig.Key) and form != "key":
+        k = key_or_ring
+        if form == "callable":
+            key_or_ring = lambda message, keyname, _k=k: _k if keyname == _k.name else None  # noqa: E731
+        else:
+            key_or_ring = {k.name: k}
+            if form == "dict_origin" and len(k.name) > 2:
+                kw["origin"] = k.name.parent()
     try:
-        m = dns.message.from_wire(wire, keyring=key_or_ring, request_mac=request_mac, multi=multi, tsig_ctx=ctx)
+        m = dns.message.from_wire(wire, keyring=key_or_ring, request_mac=request_mac, multi=multi, tsig_ctx=ctx, **kw)
         return ("ok", m)
     except Exception as e:  # noqa: BLE001
         return ("exc", type(e).__name__, e)
@@ -363,7 +380,8 @@ def _scenario_identity(case, res, log):
         want = {"UnknownTSIGKey"}
     elif kind == "keyname_key":
         signed, _ = T.sign_single(secret, "other." + kn, alg, rw, t_signed, case["fudge"], request_mac=req_mac)
-        want = {"BadKey"}
+        # a Key object is compared with the TSIG owner (BadKey); a ring or a callable does not find it
+        want = {"BadKey"} if _RING_FORM[0] == "key" else {"UnknownTSIGKey"}
     elif kind == "algorithm":
         other_alg = [a for a in ALGS if a != alg][case["flipbit"] % (len(ALGS) - 1)]
         signed, _ = T.sign_single(secret, kn, other_alg, rw, t_signed, case["fudge"], request_mac=req_mac)
@@ -888,6 +906,9 @@ def run_case(case, keep_log=False):
     res = RunResult()
     log = EventLog(keep=keep_log)
     _FIXED_ID[0] = (case["qid"] * 31 + 7) % 65536
+    _RING_FORM[0] = case.get("ring_form", "key")
+    if _RING_FORM[0] != "key":
+        res.probes.inc("keyring_given_as_" + _RING_FORM[0])
     log.add("case", case["scenario"], case["alg"], len(case["secret"]) // 2, case["keyname"], case["fudge"], case["time"], case["qid"],
             case["skew"], case["identity"], case["structure"], case["nenv"], case["unsigned_mask"], case["envfault"], case["envpos"], case["flipbit"], case["nrr"])
     try:
